@@ -83,6 +83,15 @@ def rhsOp (op : InfixOp) : InfixOp :=
 open Expr in
 structure Rel (K : Type) [SimpScalar K] (bad : Arm → Prop) where
   R : Expr K → Expr K → Prop
+  /-- A class of expressions closed under everything the simplifier does (sub-terms, constructors, numbers,
+  `R`-successors).  The soundness theorem is about calls on expressions of this class; `fun _ => True` for the
+  value and the variables relations, "contains no `pi`" for the third one. -/
+  Pre : Expr K → Prop
+  preBin : ∀ {a op b}, Pre (bin a op b) ↔ Pre a ∧ Pre b
+  prePre : ∀ {op a}, Pre (pre op a) ↔ Pre a
+  preCall : ∀ {f a}, Pre (call f a) ↔ Pre a
+  preNum : ∀ z, Pre (number z)
+  keep : ∀ {o r}, R o r → Pre o → Pre r
   refl : ∀ e, R e e
   trans : ∀ {a b c}, R a b → R b c → R a c
   /-- hash-consing equality, both directions -/
@@ -97,7 +106,7 @@ structure Rel (K : Type) [SimpScalar K] (bad : Arm → Prop) where
   piNum : R pi (number Scalar.pi)
   callFold : ∀ f z, R (call f (number z)) (number (calcFn f z))
   prePlus : ∀ e, R (pre .plus e) e
-  preNegNum : ∀ z, R (pre .minus (number z)) (number (Scalar.neg z))
+  preNegNum : ∀ z, R (pre .minus (number z)) (number (Scalar.sub Scalar.zero z))
   preNegNeg : ∀ e, R (pre .minus (pre .minus e)) e
   -- the arms of `simplify_infix`
   addZeroL : ∀ {x} r, SimpScalar.isZero x = true → R (bin (number x) .plus r) r
@@ -124,8 +133,8 @@ structure Rel (K : Type) [SimpScalar K] (bad : Arm → Prop) where
   subNegR : ∀ l e, R (bin l .minus (pre .minus e)) (bin l .plus e)
   subNegL : ∀ e r, R (bin (pre .minus e) .minus r) (pre .minus (bin e .plus r))
   negNeg : ∀ {op} a b, isMulDiv op = true → R (bin (pre .minus a) op (pre .minus b)) (bin a op b)
-  divNegSelfR : ∀ {l e}, beqE l e = true → R (bin l .slash (pre .minus e)) (number (Scalar.neg Scalar.one))
-  divNegSelfL : ∀ {e r}, beqE e r = true → R (bin (pre .minus e) .slash r) (number (Scalar.neg Scalar.one))
+  divNegSelfR : ∀ {l e}, beqE l e = true → R (bin l .slash (pre .minus e)) (number SimpScalar.negOne)
+  divNegSelfL : ∀ {e r}, beqE e r = true → R (bin (pre .minus e) .slash r) (number SimpScalar.negOne)
   negR : ∀ {op} l e, isMulDiv op = true → R (bin l op (pre .minus e)) (bin (pre .minus l) op e)
   negL : ∀ {op} e r, isMulDiv op = true → R (bin (pre .minus e) op r) (bin e op (pre .minus r))
   affine1 : ∀ {ll lr lb rl rr rb}, beqE ll rl = true →
@@ -165,16 +174,17 @@ structure Rel (K : Type) [SimpScalar K] (bad : Arm → Prop) where
 section sound
 variable {bad : Arm → Prop} (R : Rel K bad)
 
-/-- every cached pair is related -/
-def CacheOK (c : List (Expr K × Expr K)) : Prop := ∀ k v, (k, v) ∈ c → R.R k v
+/-- every cached pair is related (and its value is of the class) -/
+def CacheOK (c : List (Expr K × Expr K)) : Prop := ∀ k v, (k, v) ∈ c → R.Pre v ∧ R.R k v
 
-/-- `S e` returns something that may replace `e` -/
+/-- on an expression of the class, `S e` returns something of the class that may replace `e` -/
 def RecSound (S : Expr K → M K (Expr K)) : Prop :=
-  ∀ e, Spec bad (CacheOK R) (S e) (fun r => R.R e r)
+  ∀ e, R.Pre e → Spec bad (CacheOK R) (S e) (fun r => R.R e r ∧ R.Pre r)
 
 /-- an arm that matches returns something that may replace `left ∘ right` -/
 def ArmSound (f : ArmFn K) : Prop :=
-  ∀ l op r m, f l op r = some m → Spec bad (CacheOK R) m (fun res => R.R (.bin l op r) res)
+  ∀ l op r m, R.Pre l → R.Pre r → f l op r = some m →
+    Spec bad (CacheOK R) m (fun res => R.R (.bin l op r) res)
 
 theorem Rel.smaller {o a b : Expr K} (ha : R.R o a) (hb : R.R o b) : R.R o (smaller a b) := by
   unfold QV.C12.smaller; split <;> assumption
@@ -197,14 +207,19 @@ theorem Spec.numOf {o : Expr K} {v : K} (h : R.R o (.number v)) :
   Spec.mono (Spec.num R v) (fun _ hr => R.trans h hr)
 
 /-- a recursive call on `e'` where `R o e'` -/
-theorem RecSound.of {S : Expr K → M K (Expr K)} (hS : RecSound R S) {o e' : Expr K} (h : R.R o e') :
-    Spec bad (CacheOK R) (S e') (fun r => R.R o r) :=
-  Spec.mono (hS e') (fun _ hr => R.trans h hr)
+theorem RecSound.of {S : Expr K → M K (Expr K)} (hS : RecSound R S) {o e' : Expr K} (h : R.R o e')
+    (hp : R.Pre e') : Spec bad (CacheOK R) (S e') (fun r => R.R o r) :=
+  Spec.mono (hS e' hp) (fun _ hr => R.trans h hr.1)
+
+/-- membership in the class, from the hypotheses in scope -/
+macro "pre_tac" R:term : tactic => `(tactic| (
+  simp only [($R).preBin, ($R).prePre, ($R).preCall] at *
+  simp [*, ($R).preNum]))
 
 /-! ### One lemma per arm -/
 
 theorem armAddZeroL_sound : ArmSound R armAddZeroL := by
-  intro l op r m h
+  intro l op r m hl hr h
   unfold armAddZeroL at h
   split at h
   · split at h
@@ -213,7 +228,7 @@ theorem armAddZeroL_sound : ArmSound R armAddZeroL := by
   · cases h
 
 theorem armAddZeroR_sound : ArmSound R armAddZeroR := by
-  intro l op r m h
+  intro l op r m hl hr h
   unfold armAddZeroR at h
   split at h
   · split at h
@@ -222,16 +237,16 @@ theorem armAddZeroR_sound : ArmSound R armAddZeroR := by
   · cases h
 
 theorem armSubZeroL_sound {S} (hS : RecSound R S) : ArmSound R (armSubZeroL S) := by
-  intro l op r m h
+  intro l op r m hl hr h
   unfold armSubZeroL at h
   split at h
   · split at h
-    · next hz => cases h; exact Spec.tk _ (hS.of R (R.subZeroL _ hz))
+    · next hz => cases h; exact Spec.tk _ (hS.of R (R.subZeroL _ hz) (by pre_tac R))
     · cases h
   · cases h
 
 theorem armSubZeroR_sound : ArmSound R armSubZeroR := by
-  intro l op r m h
+  intro l op r m hl hr h
   unfold armSubZeroR at h
   split at h
   · split at h
@@ -240,7 +255,7 @@ theorem armSubZeroR_sound : ArmSound R armSubZeroR := by
   · cases h
 
 theorem armSubSelf_sound : ArmSound R armSubSelf := by
-  intro l op r m h
+  intro l op r m hl hr h
   unfold armSubSelf at h
   split at h
   · split at h
@@ -249,7 +264,7 @@ theorem armSubSelf_sound : ArmSound R armSubSelf := by
   · cases h
 
 theorem armMulZero_sound : ArmSound R armMulZero := by
-  intro l op r m h
+  intro l op r m hl hr h
   unfold armMulZero at h
   split at h
   · split at h
@@ -263,7 +278,7 @@ theorem armMulZero_sound : ArmSound R armMulZero := by
   · cases h
 
 theorem armMulOneL_sound : ArmSound R armMulOneL := by
-  intro l op r m h
+  intro l op r m hl hr h
   unfold armMulOneL at h
   split at h
   · split at h
@@ -272,7 +287,7 @@ theorem armMulOneL_sound : ArmSound R armMulOneL := by
   · cases h
 
 theorem armMulOneR_sound : ArmSound R armMulOneR := by
-  intro l op r m h
+  intro l op r m hl hr h
   unfold armMulOneR at h
   split at h
   · split at h
@@ -281,7 +296,7 @@ theorem armMulOneR_sound : ArmSound R armMulOneR := by
   · cases h
 
 theorem armDivZeroL_sound : ArmSound R armDivZeroL := by
-  intro l op r m h
+  intro l op r m hl hr h
   unfold armDivZeroL at h
   split at h
   · split at h
@@ -290,7 +305,7 @@ theorem armDivZeroL_sound : ArmSound R armDivZeroL := by
   · cases h
 
 theorem armDivByZero_sound : ArmSound R armDivByZero := by
-  intro l op r m h
+  intro l op r m hl hr h
   unfold armDivByZero at h
   split at h
   · split at h
@@ -299,7 +314,7 @@ theorem armDivByZero_sound : ArmSound R armDivByZero := by
   · cases h
 
 theorem armDivOne_sound : ArmSound R armDivOne := by
-  intro l op r m h
+  intro l op r m hl hr h
   unfold armDivOne at h
   split at h
   · split at h
@@ -308,7 +323,7 @@ theorem armDivOne_sound : ArmSound R armDivOne := by
   · cases h
 
 theorem armDivSelf_sound : ArmSound R armDivSelf := by
-  intro l op r m h
+  intro l op r m hl hr h
   unfold armDivSelf at h
   split at h
   · split at h
@@ -317,7 +332,7 @@ theorem armDivSelf_sound : ArmSound R armDivSelf := by
   · cases h
 
 theorem armPowZeroExp_sound : ArmSound R armPowZeroExp := by
-  intro l op r m h
+  intro l op r m hl hr h
   unfold armPowZeroExp at h
   split at h
   · split at h
@@ -327,7 +342,7 @@ theorem armPowZeroExp_sound : ArmSound R armPowZeroExp := by
 
 /-- the arm of the known finding: sound for `R` only if `R` says so; otherwise it is `bad` and the log shows it -/
 theorem armPowZeroBase_sound : ArmSound R armPowZeroBase := by
-  intro l op r m h
+  intro l op r m hl hr h
   unfold armPowZeroBase at h
   split at h
   · split at h
@@ -340,7 +355,7 @@ theorem armPowZeroBase_sound : ArmSound R armPowZeroBase := by
   · cases h
 
 theorem armPowOneBase_sound : ArmSound R armPowOneBase := by
-  intro l op r m h
+  intro l op r m hl hr h
   unfold armPowOneBase at h
   split at h
   · split at h
@@ -349,7 +364,7 @@ theorem armPowOneBase_sound : ArmSound R armPowOneBase := by
   · cases h
 
 theorem armPowOneExp_sound : ArmSound R armPowOneExp := by
-  intro l op r m h
+  intro l op r m hl hr h
   unfold armPowOneExp at h
   split at h
   · split at h
@@ -358,57 +373,57 @@ theorem armPowOneExp_sound : ArmSound R armPowOneExp := by
   · cases h
 
 theorem armFold_sound : ArmSound R armFold := by
-  intro l op r m h
+  intro l op r m hl hr h
   unfold armFold at h
   split at h
   · cases h; exact Spec.tk _ (Spec.numOf R (R.fold _ _ _))
   · cases h
 
 theorem armAddNegR_sound {S} (hS : RecSound R S) : ArmSound R (armAddNegR S) := by
-  intro l op r m h
+  intro l op r m hl hr h
   unfold armAddNegR at h
   split at h
-  · cases h; exact Spec.tk _ (hS.of R (R.addNegR _ _))
+  · cases h; exact Spec.tk _ (hS.of R (R.addNegR _ _) (by pre_tac R))
   · cases h
 
 theorem armAddNegL_sound {S} (hS : RecSound R S) : ArmSound R (armAddNegL S) := by
-  intro l op r m h
+  intro l op r m hl hr h
   unfold armAddNegL at h
   split at h
-  · cases h; exact Spec.tk _ (hS.of R (R.addNegL _ _))
+  · cases h; exact Spec.tk _ (hS.of R (R.addNegL _ _) (by pre_tac R))
   · cases h
 
 theorem armSubNegR_sound {S} (hS : RecSound R S) : ArmSound R (armSubNegR S) := by
-  intro l op r m h
+  intro l op r m hl hr h
   unfold armSubNegR at h
   split at h
-  · cases h; exact Spec.tk _ (hS.of R (R.subNegR _ _))
+  · cases h; exact Spec.tk _ (hS.of R (R.subNegR _ _) (by pre_tac R))
   · cases h
 
 theorem armSubNegL_sound {S} (hS : RecSound R S) : ArmSound R (armSubNegL S) := by
-  intro l op r m h
+  intro l op r m hl hr h
   unfold armSubNegL at h
   split at h
   · next e r =>
     cases h
     refine Spec.tk _ ?_
-    refine Spec.bind (hS _) (fun inner hin => ?_)
-    refine Spec.bind (hS _) (fun outer hout => ?_)
+    refine Spec.bind (hS _ (by pre_tac R)) (fun inner ⟨hin, p_inner⟩ => ?_)
+    refine Spec.bind (hS _ (by pre_tac R)) (fun outer ⟨hout, p_outer⟩ => ?_)
     refine Spec.pure (R.smaller (R.refl _) ?_)
     exact R.trans (R.subNegL _ _) (R.trans (R.congPre _ hin) hout)
   · cases h
 
 theorem armNegNeg_sound {S} (hS : RecSound R S) : ArmSound R (armNegNeg S) := by
-  intro l op r m h
+  intro l op r m hl hr h
   unfold armNegNeg at h
   split at h
   · split at h
-    · next hz => cases h; exact Spec.tk _ (hS.of R (R.negNeg _ _ hz))
+    · next hz => cases h; exact Spec.tk _ (hS.of R (R.negNeg _ _ hz) (by pre_tac R))
     · cases h
   · cases h
 
 theorem armDivNegSelfR_sound : ArmSound R armDivNegSelfR := by
-  intro l op r m h
+  intro l op r m hl hr h
   unfold armDivNegSelfR at h
   split at h
   · split at h
@@ -417,7 +432,7 @@ theorem armDivNegSelfR_sound : ArmSound R armDivNegSelfR := by
   · cases h
 
 theorem armDivNegSelfL_sound : ArmSound R armDivNegSelfL := by
-  intro l op r m h
+  intro l op r m hl hr h
   unfold armDivNegSelfL at h
   split at h
   · split at h
@@ -426,77 +441,78 @@ theorem armDivNegSelfL_sound : ArmSound R armDivNegSelfL := by
   · cases h
 
 theorem armNegR_sound {S} (hS : RecSound R S) : ArmSound R (armNegR S) := by
-  intro l op r m h
+  intro l op r m hl hr h
   unfold armNegR at h
   split at h
   · split at h
     · next hz =>
       cases h
       refine Spec.tk _ ?_
-      refine Spec.bind (hS _) (fun negLeft hnl => ?_)
-      refine Spec.bind (hS _) (fun new hnew => ?_)
+      refine Spec.bind (hS _ (by pre_tac R)) (fun negLeft ⟨hnl, p_negLeft⟩ => ?_)
+      refine Spec.bind (hS _ (by pre_tac R)) (fun new ⟨hnew, p_new⟩ => ?_)
       refine Spec.pure (R.smaller (R.refl _) ?_)
       exact R.trans (R.negR _ _ hz) (R.trans (R.congBin _ hnl (R.refl _)) hnew)
     · cases h
   · cases h
 
 theorem armNegL_sound {S} (hS : RecSound R S) : ArmSound R (armNegL S) := by
-  intro l op r m h
+  intro l op r m hl hr h
   unfold armNegL at h
   split at h
   · split at h
     · next hz =>
       cases h
       refine Spec.tk _ ?_
-      refine Spec.bind (hS _) (fun negRight hnr => ?_)
-      refine Spec.bind (hS _) (fun new hnew => ?_)
+      refine Spec.bind (hS _ (by pre_tac R)) (fun negRight ⟨hnr, p_negRight⟩ => ?_)
+      refine Spec.bind (hS _ (by pre_tac R)) (fun new ⟨hnew, p_new⟩ => ?_)
       refine Spec.pure (R.smaller (R.refl _) ?_)
       exact R.trans (R.negL _ _ hz) (R.trans (R.congBin _ (R.refl _) hnr) hnew)
     · cases h
   · cases h
 
 theorem affineGo_sound {S} (hS : RecSound R S) {o la ra x lb rb : Expr K}
-    (h : R.R o (.bin (.bin (.bin la .plus ra) .star x) .plus (.bin lb .plus rb))) :
+    (h : R.R o (.bin (.bin (.bin la .plus ra) .star x) .plus (.bin lb .plus rb)))
+    (pla : R.Pre la) (pra : R.Pre ra) (px : R.Pre x) (plb : R.Pre lb) (prb : R.Pre rb) :
     Spec bad (CacheOK R) (affineGo S la ra x lb rb) (fun res => R.R o res) := by
   unfold affineGo
   refine Spec.tk _ ?_
-  refine Spec.bind (hS _) (fun sumAs hA => ?_)
-  refine Spec.bind (hS _) (fun sumBs hB => ?_)
-  refine Spec.bind (hS _) (fun mulAsX hM => ?_)
-  refine hS.of R ?_
+  refine Spec.bind (hS _ (by pre_tac R)) (fun sumAs ⟨hA, p_sumAs⟩ => ?_)
+  refine Spec.bind (hS _ (by pre_tac R)) (fun sumBs ⟨hB, p_sumBs⟩ => ?_)
+  refine Spec.bind (hS _ (by pre_tac R)) (fun mulAsX ⟨hM, p_mulAsX⟩ => ?_)
+  refine hS.of R ?_ (by pre_tac R)
   exact R.trans h (R.congBin _ (R.trans (R.congBin _ hA (R.refl _)) hM) hB)
 
 theorem armAffine_sound {S} (hS : RecSound R S) : ArmSound R (armAffine S) := by
-  intro l op r m h
+  intro l op r m hl hr h
   unfold armAffine at h
   split at h
   · split at h
-    · next h1 => cases h; exact affineGo_sound R hS (R.affine1 h1)
+    · next h1 => cases h; exact affineGo_sound R hS (R.affine1 h1) (by pre_tac R) (by pre_tac R) (by pre_tac R) (by pre_tac R) (by pre_tac R)
     · split at h
-      · next h2 => cases h; exact affineGo_sound R hS (R.affine2 h2)
+      · next h2 => cases h; exact affineGo_sound R hS (R.affine2 h2) (by pre_tac R) (by pre_tac R) (by pre_tac R) (by pre_tac R) (by pre_tac R)
       · split at h
-        · next h3 => cases h; exact affineGo_sound R hS (R.affine3 h3)
+        · next h3 => cases h; exact affineGo_sound R hS (R.affine3 h3) (by pre_tac R) (by pre_tac R) (by pre_tac R) (by pre_tac R) (by pre_tac R)
         · split at h
-          · next h4 => cases h; exact affineGo_sound R hS (R.affine4 h4)
+          · next h4 => cases h; exact affineGo_sound R hS (R.affine4 h4) (by pre_tac R) (by pre_tac R) (by pre_tac R) (by pre_tac R) (by pre_tac R)
           · cases h
   · cases h
 
 theorem armMulCommon_sound {S} (hS : RecSound R S) : ArmSound R (armMulCommon S) := by
-  intro l op r m h
+  intro l op r m hl hr h
   unfold armMulCommon at h
   split at h
   · split at h
     · next hz =>
       cases h
       refine Spec.tk _ ?_
-      refine Spec.bind (hS _) (fun sumAs hA => ?_)
-      refine hS.of R ?_
+      refine Spec.bind (hS _ (by pre_tac R)) (fun sumAs ⟨hA, p_sumAs⟩ => ?_)
+      refine hS.of R ?_ (by pre_tac R)
       exact R.trans (R.mulCommon hz) (R.congBin _ hA (R.refl _))
     · cases h
   · cases h
 
 theorem armAddCommon_sound {S} (hS : RecSound R S) : ArmSound R (armAddCommon S) := by
-  intro l op r m h
+  intro l op r m hl hr h
   unfold armAddCommon at h
   split at h
   · split at h
@@ -504,15 +520,16 @@ theorem armAddCommon_sound {S} (hS : RecSound R S) : ArmSound R (armAddCommon S)
       cases h
       refine Spec.tk _ ?_
       refine Spec.bind (Spec.num R _) (fun two h2 => ?_)
-      refine Spec.bind (hS _) (fun twoX hX => ?_)
-      refine Spec.bind (hS _) (fun sumBs hB => ?_)
-      refine hS.of R ?_
+      have p_two := R.keep h2 (R.preNum _)
+      refine Spec.bind (hS _ (by pre_tac R)) (fun twoX ⟨hX, p_twoX⟩ => ?_)
+      refine Spec.bind (hS _ (by pre_tac R)) (fun sumBs ⟨hB, p_sumBs⟩ => ?_)
+      refine hS.of R ?_ (by pre_tac R)
       exact R.trans (R.addCommon hz) (R.congBin _ (R.trans (R.congBin _ h2 (R.refl _)) hX) hB)
     · cases h
   · cases h
 
 theorem armAssocR_sound {S} (hS : RecSound R S) : ArmSound R (armAssocR S) := by
-  intro l op r m h
+  intro l op r m hl hr h
   unfold armAssocR at h
   split at h
   · split at h
@@ -522,15 +539,15 @@ theorem armAssocR_sound {S} (hS : RecSound R S) : ArmSound R (armAssocR S) := by
       have hop : op = op' := by simpa using hz'.2
       subst hop
       refine Spec.tk _ ?_
-      refine Spec.bind (hS _) (fun ab hab => ?_)
-      refine Spec.bind (hS _) (fun new hnew => ?_)
+      refine Spec.bind (hS _ (by pre_tac R)) (fun ab ⟨hab, p_ab⟩ => ?_)
+      refine Spec.bind (hS _ (by pre_tac R)) (fun new ⟨hnew, p_new⟩ => ?_)
       refine Spec.pure (R.smaller (R.refl _) ?_)
       exact R.trans (R.assocR _ _ _ hz'.1) (R.trans (R.congBin _ hab (R.refl _)) hnew)
     · cases h
   · cases h
 
 theorem armPseudoAssocR_sound {S} (hS : RecSound R S) : ArmSound R (armPseudoAssocR S) := by
-  intro l op r m h
+  intro l op r m hl hr h
   unfold armPseudoAssocR at h
   split at h
   · split at h
@@ -540,15 +557,15 @@ theorem armPseudoAssocR_sound {S} (hS : RecSound R S) : ArmSound R (armPseudoAss
       have hop : op = op' := by simpa using hz'.2
       subst hop
       refine Spec.tk _ ?_
-      refine Spec.bind (hS _) (fun ac hac => ?_)
-      refine Spec.bind (hS _) (fun new hnew => ?_)
+      refine Spec.bind (hS _ (by pre_tac R)) (fun ac ⟨hac, p_ac⟩ => ?_)
+      refine Spec.bind (hS _ (by pre_tac R)) (fun new ⟨hnew, p_new⟩ => ?_)
       refine Spec.pure (R.smaller (R.refl _) ?_)
       exact R.trans (R.pseudoAssocR _ _ _ hz'.1) (R.trans (R.congBin _ hac (R.refl _)) hnew)
     · cases h
   · cases h
 
 theorem armAssocL_sound {S} (hS : RecSound R S) : ArmSound R (armAssocL S) := by
-  intro l op r m h
+  intro l op r m hl hr h
   unfold armAssocL at h
   split at h
   · split at h
@@ -558,41 +575,41 @@ theorem armAssocL_sound {S} (hS : RecSound R S) : ArmSound R (armAssocL S) := by
       have hop : op = op' := by simpa using hz'.2
       subst hop
       refine Spec.tk _ ?_
-      refine Spec.bind (hS _) (fun bc hbc => ?_)
-      refine Spec.bind (hS _) (fun new hnew => ?_)
+      refine Spec.bind (hS _ (by pre_tac R)) (fun bc ⟨hbc, p_bc⟩ => ?_)
+      refine Spec.bind (hS _ (by pre_tac R)) (fun new ⟨hnew, p_new⟩ => ?_)
       refine Spec.pure (R.smaller (R.refl _) ?_)
       exact R.trans (R.assocL _ _ _ hz'.1) (R.trans (R.congBin _ (R.refl _) hbc) hnew)
     · cases h
   · cases h
 
 theorem armDistR_sound {S} (hS : RecSound R S) : ArmSound R (armDistR S) := by
-  intro l op r m h
+  intro l op r m hl hr h
   unfold armDistR at h
   split at h
   · cases h
     refine Spec.tk _ ?_
-    refine Spec.bind (hS _) (fun ab hab => ?_)
-    refine Spec.bind (hS _) (fun ac hac => ?_)
-    refine Spec.bind (hS _) (fun new hnew => ?_)
+    refine Spec.bind (hS _ (by pre_tac R)) (fun ab ⟨hab, p_ab⟩ => ?_)
+    refine Spec.bind (hS _ (by pre_tac R)) (fun ac ⟨hac, p_ac⟩ => ?_)
+    refine Spec.bind (hS _ (by pre_tac R)) (fun new ⟨hnew, p_new⟩ => ?_)
     refine Spec.pure (R.smaller (R.refl _) ?_)
     exact R.trans (R.distR _ _ _) (R.trans (R.congBin _ hab hac) hnew)
   · cases h
 
 theorem armDistL_sound {S} (hS : RecSound R S) : ArmSound R (armDistL S) := by
-  intro l op r m h
+  intro l op r m hl hr h
   unfold armDistL at h
   split at h
   · cases h
     refine Spec.tk _ ?_
-    refine Spec.bind (hS _) (fun ac hac => ?_)
-    refine Spec.bind (hS _) (fun bc hbc => ?_)
-    refine Spec.bind (hS _) (fun new hnew => ?_)
+    refine Spec.bind (hS _ (by pre_tac R)) (fun ac ⟨hac, p_ac⟩ => ?_)
+    refine Spec.bind (hS _ (by pre_tac R)) (fun bc ⟨hbc, p_bc⟩ => ?_)
+    refine Spec.bind (hS _ (by pre_tac R)) (fun new ⟨hnew, p_new⟩ => ?_)
     refine Spec.pure (R.smaller (R.refl _) ?_)
     exact R.trans (R.distL _ _ _) (R.trans (R.congBin _ hac hbc) hnew)
   · cases h
 
 theorem armMulDivCancelL_sound : ArmSound R armMulDivCancelL := by
-  intro l op r m h
+  intro l op r m hl hr h
   unfold armMulDivCancelL at h
   split at h
   · split at h
@@ -603,7 +620,7 @@ theorem armMulDivCancelL_sound : ArmSound R armMulDivCancelL := by
   · cases h
 
 theorem armDivMulCancelR_sound {S} (hS : RecSound R S) : ArmSound R (armDivMulCancelR S) := by
-  intro l op r m h
+  intro l op r m hl hr h
   unfold armDivMulCancelR at h
   split at h
   · split at h
@@ -611,42 +628,44 @@ theorem armDivMulCancelR_sound {S} (hS : RecSound R S) : ArmSound R (armDivMulCa
       cases h
       refine Spec.tk _ ?_
       refine Spec.bind (Spec.num R _) (fun one h1' => ?_)
-      exact hS.of R (R.trans (R.divMulCancelR1 h1) (R.congBin _ h1' (R.refl _)))
+      have p_one := R.keep h1' (R.preNum _)
+      exact hS.of R (R.trans (R.divMulCancelR1 h1) (R.congBin _ h1' (R.refl _))) (by pre_tac R)
     · split at h
       · next h2 =>
         cases h
         refine Spec.tk _ ?_
         refine Spec.bind (Spec.num R _) (fun one h1' => ?_)
-        exact hS.of R (R.trans (R.divMulCancelR2 h2) (R.congBin _ h1' (R.refl _)))
+        have p_one := R.keep h1' (R.preNum _)
+        exact hS.of R (R.trans (R.divMulCancelR2 h2) (R.congBin _ h1' (R.refl _))) (by pre_tac R)
       · cases h
   · cases h
 
 theorem armMulInDivL_sound {S} (hS : RecSound R S) : ArmSound R (armMulInDivL S) := by
-  intro l op r m h
+  intro l op r m hl hr h
   unfold armMulInDivL at h
   split at h
   · cases h
     refine Spec.tk _ ?_
-    refine Spec.bind (hS _) (fun nm hnm => ?_)
-    refine Spec.bind (hS _) (fun new hnew => ?_)
+    refine Spec.bind (hS _ (by pre_tac R)) (fun nm ⟨hnm, p_nm⟩ => ?_)
+    refine Spec.bind (hS _ (by pre_tac R)) (fun new ⟨hnew, p_new⟩ => ?_)
     refine Spec.pure (R.smaller (R.refl _) ?_)
     exact R.trans (R.mulInDivL _ _ _) (R.trans (R.congBin _ (R.refl _) hnm) hnew)
   · cases h
 
 theorem armMulInDivR_sound {S} (hS : RecSound R S) : ArmSound R (armMulInDivR S) := by
-  intro l op r m h
+  intro l op r m hl hr h
   unfold armMulInDivR at h
   split at h
   · cases h
     refine Spec.tk _ ?_
-    refine Spec.bind (hS _) (fun nm hnm => ?_)
-    refine Spec.bind (hS _) (fun new hnew => ?_)
+    refine Spec.bind (hS _ (by pre_tac R)) (fun nm ⟨hnm, p_nm⟩ => ?_)
+    refine Spec.bind (hS _ (by pre_tac R)) (fun new ⟨hnew, p_new⟩ => ?_)
     refine Spec.pure (R.smaller (R.refl _) ?_)
     exact R.trans (R.mulInDivR _ _ _) (R.trans (R.congBin _ hnm (R.refl _)) hnew)
   · cases h
 
 theorem armDivMulCancelL_sound : ArmSound R armDivMulCancelL := by
-  intro l op r m h
+  intro l op r m hl hr h
   unfold armDivMulCancelL at h
   split at h
   · split at h
@@ -655,7 +674,7 @@ theorem armDivMulCancelL_sound : ArmSound R armDivMulCancelL := by
   · cases h
 
 theorem armMulDivCancelR_sound : ArmSound R armMulDivCancelR := by
-  intro l op r m h
+  intro l op r m hl hr h
   unfold armMulDivCancelR at h
   split at h
   · split at h
@@ -670,13 +689,14 @@ def TableSound (T : ArmTable K) : Prop :=
   ∀ S, RecSound R S → ∀ f ∈ T S, ArmSound R f
 
 theorem firstArm_sound {fs : List (ArmFn K)} (h : ∀ f ∈ fs, ArmSound R f) (l : Expr K) (op : InfixOp)
-    (r : Expr K) : Spec bad (CacheOK R) (firstArm fs l op r) (fun res => R.R (.bin l op r) res) := by
+    (r : Expr K) (hl : R.Pre l) (hr : R.Pre r) :
+    Spec bad (CacheOK R) (firstArm fs l op r) (fun res => R.R (.bin l op r) res) := by
   induction fs with
   | nil => exact Spec.tk _ (Spec.pure (R.refl _))
   | cons f fs ih =>
     unfold firstArm
     split
-    · next m hm => exact h f (by simp) l op r m hm
+    · next m hm => exact h f (by simp) l op r m hl hr hm
     · exact ih (fun g hg => h g (by simp [hg]))
 
 theorem arms_sound : TableSound R arms := by
@@ -727,31 +747,31 @@ theorem arms_sound : TableSound R arms := by
   · exact armMulDivCancelR_sound R
 
 theorem simplifyInfix_sound {T : ArmTable K} (hT : TableSound R T) {S0 S1} (h0 : RecSound R S0)
-    (h1 : RecSound R S1) (left : Expr K) (op : InfixOp) (right : Expr K) :
+    (h1 : RecSound R S1) (left : Expr K) (op : InfixOp) (right : Expr K) (hl : R.Pre left) (hr : R.Pre right) :
     Spec bad (CacheOK R) (simplifyInfix T S0 S1 left op right) (fun res => R.R (.bin left op right) res) := by
   unfold simplifyInfix
-  refine Spec.bind (h0 _) (fun l hl => ?_)
-  refine Spec.bind (h0 _) (fun r hr => ?_)
-  exact Spec.mono (firstArm_sound R (hT S1 h1) l op r) (fun _ h => R.trans (R.congBin _ hl hr) h)
+  refine Spec.bind (h0 _ hl) (fun l ⟨hl', pl⟩ => ?_)
+  refine Spec.bind (h0 _ hr) (fun r ⟨hr', pr⟩ => ?_)
+  exact Spec.mono (firstArm_sound R (hT S1 h1) l op r pl pr) (fun _ h => R.trans (R.congBin _ hl' hr') h)
 
-theorem simplifyCall_sound {S0} (h0 : RecSound R S0) (f : ExprFn) (x : Expr K) :
+theorem simplifyCall_sound {S0} (h0 : RecSound R S0) (f : ExprFn) (x : Expr K) (hx : R.Pre x) :
     Spec bad (CacheOK R) (simplifyCall S0 f x) (fun res => R.R (.call f x) res) := by
   unfold simplifyCall
-  refine Spec.bind (h0 _) (fun x' hx => ?_)
+  refine Spec.bind (h0 _ hx) (fun x' ⟨hx', _⟩ => ?_)
   split
-  · exact Spec.tk _ (Spec.numOf R (R.trans (R.congCall _ hx) (R.callFold _ _)))
-  · exact Spec.tk _ (Spec.pure (R.congCall _ hx))
+  · exact Spec.tk _ (Spec.numOf R (R.trans (R.congCall _ hx') (R.callFold _ _)))
+  · exact Spec.tk _ (Spec.pure (R.congCall _ hx'))
 
-theorem simplifyPrefix_sound {S0} (h0 : RecSound R S0) (op : PrefixOp) (x : Expr K) :
+theorem simplifyPrefix_sound {S0} (h0 : RecSound R S0) (op : PrefixOp) (x : Expr K) (hx : R.Pre x) :
     Spec bad (CacheOK R) (simplifyPrefix S0 op x) (fun res => R.R (.pre op x) res) := by
   unfold simplifyPrefix
-  refine Spec.bind (h0 _) (fun x' hx => ?_)
+  refine Spec.bind (h0 _ hx) (fun x' ⟨hx', _⟩ => ?_)
   split
-  · exact Spec.tk _ (Spec.pure (R.trans (R.congPre _ hx) (R.prePlus _)))
+  · exact Spec.tk _ (Spec.pure (R.trans (R.congPre _ hx') (R.prePlus _)))
   · split
-    · exact Spec.tk _ (Spec.numOf R (R.trans (R.congPre _ hx) (R.preNegNum _)))
-    · exact Spec.tk _ (Spec.pure (R.trans (R.congPre _ hx) (R.preNegNeg _)))
-    · exact Spec.tk _ (Spec.pure (R.congPre _ hx))
+    · exact Spec.tk _ (Spec.numOf R (R.trans (R.congPre _ hx') (R.preNegNum _)))
+    · exact Spec.tk _ (Spec.pure (R.trans (R.congPre _ hx') (R.preNegNeg _)))
+    · exact Spec.tk _ (Spec.pure (R.congPre _ hx'))
 
 theorem step0_sound (e : Expr K) : Spec bad (CacheOK R) (step0 e) (fun res => R.R e res) := by
   unfold step0
@@ -760,16 +780,16 @@ theorem step0_sound (e : Expr K) : Spec bad (CacheOK R) (step0 e) (fun res => R.
   · exact Spec.tk _ (Spec.pure (R.refl _))
 
 theorem step_sound {T : ArmTable K} (hT : TableSound R T) {S0 S1} (h0 : RecSound R S0) (h1 : RecSound R S1)
-    (e : Expr K) : Spec bad (CacheOK R) (step T S0 S1 e) (fun res => R.R e res) := by
+    (e : Expr K) (he : R.Pre e) : Spec bad (CacheOK R) (step T S0 S1 e) (fun res => R.R e res) := by
   unfold step
   split
   · exact Spec.tk _ (Spec.numOf R R.piNum)
   · exact Spec.tk _ (Spec.pure (R.refl _))
   · exact Spec.tk _ (Spec.pure (R.refl _))
   · exact Spec.tk _ (Spec.pure (R.refl _))
-  · exact simplifyCall_sound R h0 _ _
-  · exact simplifyInfix_sound R hT h0 h1 _ _ _
-  · exact simplifyPrefix_sound R h0 _ _
+  · exact simplifyCall_sound R h0 _ _ (R.preCall.mp he)
+  · exact simplifyInfix_sound R hT h0 h1 _ _ _ (R.preBin.mp he).1 (R.preBin.mp he).2
+  · exact simplifyPrefix_sound R h0 _ _ (R.prePre.mp he)
 
 theorem lookup_some {c : List (Expr K × Expr K)} {e v : Expr K} (h : lookup c e = some v) :
     ∃ k, (k, v) ∈ c ∧ beqE k e = true := by
@@ -784,24 +804,25 @@ theorem lookup_some {c : List (Expr K × Expr K)} {e v : Expr K} (h : lookup c e
       exact ⟨k', by simp [hk], hb⟩
 
 /-- the memo table: a hit returns a related expression; a miss runs the body and records a related pair -/
-theorem memo_sound {e : Expr K} {body : M K (Expr K)}
+theorem memo_sound {e : Expr K} {body : M K (Expr K)} (he : R.Pre e)
     (h : Spec bad (CacheOK R) body (fun res => R.R e res)) :
-    Spec bad (CacheOK R) (memo e body) (fun res => R.R e res) := by
+    Spec bad (CacheOK R) (memo e body) (fun res => R.R e res ∧ R.Pre res) := by
   intro s hs
   unfold memo
   split
   · next v hv =>
     right
     obtain ⟨k, hk, hb⟩ := lookup_some hv
-    exact ⟨hs, R.trans (R.beqR hb) (hs k v hk)⟩
+    have hev := R.trans (R.beqR hb) (hs k v hk).2
+    exact ⟨hs, hev, R.keep hev he⟩
   · rcases h s hs with hbad | ⟨hc, hr⟩
     · left; exact hbad
     · right
-      refine ⟨?_, hr⟩
+      refine ⟨?_, hr, R.keep hr he⟩
       intro k v hkv
       simp only [List.mem_cons] at hkv
       rcases hkv with hkv | hkv
-      · cases hkv; exact hr
+      · cases hkv; exact ⟨R.keep hr he, hr⟩
       · exact hc k v hkv
 
 /-- **The induction on the limit.**  For every sound table of arms, every limit and every expression. -/
@@ -811,11 +832,11 @@ theorem simplifyWith_sound {T : ArmTable K} (hT : TableSound R T) :
     intro n
     induction n with
     | zero =>
-      have h0 : RecSound R (simplifyWith T 0) := fun e => by
-        unfold simplifyWith; exact memo_sound R (step0_sound R e)
-      exact ⟨h0, fun e => by unfold simplifyWith; exact memo_sound R (step_sound R hT h0 h0 e)⟩
+      have h0 : RecSound R (simplifyWith T 0) := fun e he => by
+        unfold simplifyWith; exact memo_sound R he (step0_sound R e)
+      exact ⟨h0, fun e he => by unfold simplifyWith; exact memo_sound R he (step_sound R hT h0 h0 e he)⟩
     | succ n ih =>
-      exact ⟨ih.2, fun e => by unfold simplifyWith; exact memo_sound R (step_sound R hT ih.2 ih.1 e)⟩
+      exact ⟨ih.2, fun e he => by unfold simplifyWith; exact memo_sound R he (step_sound R hT ih.2 ih.1 e he)⟩
   exact fun n => (key n).1
 
 theorem simplify_sound' : ∀ n, RecSound R (simplify (K := K) n) :=
